@@ -51,6 +51,7 @@ class ObsProbe:
 
 
 ROLE_OF = {"default_logger": "log", "default_trajectory": "traj", "default_restart": "restart"}
+ROLE_SHORT = {"logfile": "log", "trajectory": "traj", "restart_file": "restart"}
 
 
 class Recorder:
@@ -178,8 +179,8 @@ class C16(Campaign):
         return v
 
     # -- execution ---------------------------------------------------------------------
-    def _deploy(self, sc, plan=None, trace=None):
-        disk = SimDisk(bufsize=sc.get("bufsize", 8192), plan=plan)
+    def _deploy(self, sc, plan=None, trace=None, disk=None):
+        disk = disk or SimDisk(bufsize=sc.get("bufsize", 8192), plan=plan)
         if trace is not None:
             disk.trace = trace
         ref = [None]
@@ -262,6 +263,7 @@ class C16(Campaign):
             self._interrupted_call(sc)
         if only is None:
             self._resume_and_crash(sc, disk, calls)
+            self._rerun_over_stale_files(sc, disk)
         for k, kind, frac in points:
             if k >= nops:
                 continue
@@ -358,6 +360,37 @@ class C16(Campaign):
                     f"{'a line without newline; ' if not text.endswith(chr(10)) else ''}malformed rows {bad[:2]!r} (header has {ncol} columns)",
                     f"interrupted call #{fail_at}")
         res.cover.add(f"interrupted|{sc['driver']}|{sc['files'].get('logging_mode')}")
+
+    def _rerun_over_stale_files(self, sc, disk):
+        """Fault: the same script is executed a second time in 'w' mode in a directory that still holds the files of the
+        first execution.  Whatever the observers are handed (paths or file objects), the files must end up exactly as
+        after a fresh run: one header plus one line / one frame per call, one restart document."""
+        if sc["files"].get("logging_mode") != "w":
+            return
+        from simkit.simfs import SimFile
+
+        res = self.res
+        final = {n: f.durable for n, f in disk.files.items()}
+        if not any(final.values()):
+            return
+        d2 = SimDisk(bufsize=sc.get("bufsize", 8192))
+        for n, text in final.items():
+            f = SimFile(d2, n, "w", durable=text)
+            f._closed = True
+            d2.files[n] = f
+        _, w2, _rec = self._deploy(sc, disk=d2)
+        w2.run()
+        w2.mc.close()
+        res.count("fault.rerun_over_stale_files")
+        res.count("evaluations")
+        for n, text in final.items():
+            got = d2.files[n].durable
+            if got != text:
+                role = {v["name"]: k for k, v in sc["files"].items() if isinstance(v, dict)}.get(n, n)
+                how = sc["files"].get(role, {}).get("as", "?") if isinstance(sc["files"].get(role), dict) else "?"
+                self._v("stale_content_survives_w_mode", f"file={ROLE_SHORT.get(role, role)}|given_as={how}",
+                        f"second execution in 'w' mode over the files of the first: {n} holds {len(got)} characters, a fresh "
+                        f"run gives {len(text)}; starts with {got[:80]!r}", "rerun")
 
     def _resume_and_crash(self, sc, disk, calls):
         """A later process resumes from the restart file, re-using the same paths in append mode, and dies at every
